@@ -158,12 +158,14 @@ Arguments Err {A} code.
 
 Definition pair_eqb (a b : nat * nat) : bool := (fst a =? fst b)%nat && (snd a =? snd b)%nat.
 
-Definition wire_node (w : wst) (l : nat) (d : ndef) (ins : list input) : res wst :=
+(* [sharing = true] is the code; [sharing = false] is the reference wiring in which every statement
+   gets its own node (used only to STATE that sharing is unobservable) *)
+Definition wire_node (sharing : bool) (w : wst) (l : nat) (d : ndef) (ins : list input) : res wst :=
   match resolve_inputs (w_env w) (w_phs w) ins with
   | None => Err E_INADM
   | Some rins =>
       let k := make_key d rins in
-      match (if interns d then tab_find k (w_tab w) else None) with
+      match (if sharing && interns d then tab_find k (w_tab w) else None) with
       | Some i =>
           Ok {| w_insts := w_insts w; w_tab := w_tab w; w_env := (l, i) :: w_env w;
                 w_phs := w_phs w; w_binds := w_binds w; w_deps := w_deps w |}
@@ -176,9 +178,9 @@ Definition wire_node (w : wst) (l : nat) (d : ndef) (ins : list input) : res wst
       end
   end.
 
-Definition wire_stmt (w : wst) (l : nat) (s : stmt) : res wst :=
+Definition wire_stmt (sharing : bool) (w : wst) (l : nat) (s : stmt) : res wst :=
   match s with
-  | StNode d ins => wire_node w l d ins
+  | StNode d ins => wire_node sharing w l d ins
   | StPlace =>
       Ok {| w_insts := w_insts w; w_tab := w_tab w; w_env := w_env w;
             w_phs := l :: w_phs w; w_binds := w_binds w; w_deps := w_deps w |}
@@ -205,17 +207,17 @@ Definition wire_stmt (w : wst) (l : nat) (s : stmt) : res wst :=
       end
   end.
 
-Fixpoint wire_from (prog : list stmt) (order : list nat) (w : wst) : res wst :=
+Fixpoint wire_from (sharing : bool) (prog : list stmt) (order : list nat) (w : wst) : res wst :=
   match order with
   | [] => Ok w
   | l :: r =>
       match nth_error prog l with
       | None => Err E_INADM
-      | Some s => match wire_stmt w l s with Ok w' => wire_from prog r w' | Err c => Err c end
+      | Some s => match wire_stmt sharing w l s with Ok w' => wire_from sharing prog r w' | Err c => Err c end
       end
   end.
 
-Definition wire_prog (prog : list stmt) (order : list nat) : res wst := wire_from prog order w0.
+Definition wire_prog (sharing : bool) (prog : list stmt) (order : list nat) : res wst := wire_from sharing prog order w0.
 
 (* ---------------------------------------------------------------- finish: rank edges, compiled edges *)
 (* collect_producers; None = an unbound delayed_binding *)
@@ -318,7 +320,7 @@ Definition finish (w : wst) : outcome :=
   end.
 
 Definition compile (prog : list stmt) (order : list nat) : outcome :=
-  match wire_prog prog order with
+  match wire_prog true prog order with
   | Err c => Rejected c
   | Ok w => finish w
   end.
